@@ -64,6 +64,8 @@ def iter_cases(tier, shard, nshards):
                         continue
                     for mask in masks_for(len(descs), mkind, flavour, h):
                         for carrier in carriers:
+                            if flavour == "next" and carrier == "self":
+                                continue  # F.next(...) is documented for functions; it has no way to pass self
                             vs = h.type_names if flavour == "cnv" else list(itertools.product(h.type_names, repeat=2)) if flavour == "cnv2" else [None]
                             for v in vs:
                                 if idx % nshards == shard:
